@@ -2,7 +2,7 @@
    The reference interpreter is Lang/Eval.v; these theorems state what the documentation fixes about
    it for every value of every type (the float type and its operations are arbitrary). *)
 From Coq Require Import List ZArith String Ascii Bool.
-From Bloch Require Import Lang.Syntax Lang.Eval Lang.Typing Lang.OpSound Lang.EvalProps.
+From Bloch Require Import Lang.Soundness Lang.Syntax Lang.Eval Lang.Typing Lang.OpSound Lang.EvalProps.
 Import ListNotations.
 
 (* a binary operator applied to well-formed operands of documented types yields a value of exactly
@@ -71,6 +71,15 @@ Theorem C07_calls_bind_parameters_in_a_fresh_environment :
       s_env s' = s_env s1 /\ s_ctx s' = s_ctx s1.
 Proof. exact @call_isolated. Qed.
 Print Assumptions C07_calls_bind_parameters_in_a_fresh_environment.
+
+(* whole programs: whatever the fuel, a class-free program accepted by the reference checker finishes, runs out of
+   fuel, or ends with a documented runtime error (or a result flagged as outside the documentation) - it never
+   reaches an operation the semantics does not define *)
+Theorem C07_checked_programs_never_reach_an_undefined_operation :
+  forall F (O : fops F) p fuel, check_program p = true -> p_classes p = [] ->
+    forall why, snd (run O fuel p) <> Failed (RStuck why).
+Proof. exact @checked_programs_never_get_stuck. Qed.
+Print Assumptions C07_checked_programs_never_reach_an_undefined_operation.
 
 (* non-vacuity: the interpreter runs, over a toy float instance (integers), a program with promotion,
    '/', '%', an array copy that is then written, a loop, recursion and a documented runtime error *)
